@@ -132,4 +132,42 @@ theorem perigee_poly_rate {t t' : ℝ} (ht : |t| ≤ 60) (ht' : |t'| ≤ 60) :
   apply mul_le_mul_of_nonneg_left _ (abs_nonneg _)
   norm_num [abs_of_pos, abs_of_neg]
 
+/-! ### the fundamental arguments as plain polynomials (decimal literals, exact rationals) -/
+
+theorem arg_Lprime_eq (t : ℝ) : arg_Lprime t =
+    218.3164477 + (481267.88123421 + (-0.0015786 + (1 / 538841 + (-1 / 65194000) * t) * t) * t) * t := by
+  show ((218.3164477 : ℝ) + (481267.88123421 + (-0.0015786 + (1.0 / 538841.0 - t / 65194000.0) * t) * t) * t) = _
+  rw [show (1.0 : ℝ) = 1 by norm_num, show (538841.0 : ℝ) = 538841 by norm_num, show (65194000.0 : ℝ) = 65194000 by norm_num]
+  ring
+
+theorem arg_F_eq (t : ℝ) : arg_F t =
+    93.2720950 + (483202.0175233 + (-0.0036539 + (-1 / 3526000 + (1 / 863310000) * t) * t) * t) * t := by
+  show ((93.2720950 : ℝ) + (483202.0175233 + (-0.0036539 + (-1.0 / 3526000.0 + t / 863310000.0) * t) * t) * t) = _
+  rw [show (1.0 : ℝ) = 1 by norm_num, show (3526000.0 : ℝ) = 3526000 by norm_num, show (863310000.0 : ℝ) = 863310000 by norm_num]
+  ring
+
+theorem arg_Mprime_eq (t : ℝ) : arg_Mprime t =
+    134.9633964 + (477198.8675055 + (0.0087414 + (1 / 69699.9 + (1 / 14712000) * t) * t) * t) * t := by
+  show ((134.9633964 : ℝ) + (477198.8675055 + (0.0087414 + (1.0 / 69699.9 + t / 14712000.0) * t) * t) * t) = _
+  rw [show (1.0 : ℝ) = 1 by norm_num, show (14712000.0 : ℝ) = 14712000 by norm_num]
+  ring
+
+theorem pow_bounds_60 {t : ℝ} (ht : |t| ≤ 60) :
+    t ^ 2 ≤ 3600 ∧ |t ^ 3| ≤ 216000 ∧ t ^ 4 ≤ 12960000 ∧ 0 ≤ t ^ 2 ∧ 0 ≤ t ^ 4 := by
+  have h2 : |t| ^ 2 ≤ 60 ^ 2 := pow_le_pow_left₀ (abs_nonneg _) ht 2
+  have h3 : |t| ^ 3 ≤ 60 ^ 3 := pow_le_pow_left₀ (abs_nonneg _) ht 3
+  have h4 : |t| ^ 4 ≤ 60 ^ 4 := pow_le_pow_left₀ (abs_nonneg _) ht 4
+  rw [← abs_pow] at h3
+  have e2 : |t| ^ 2 = t ^ 2 := by rw [sq_abs]
+  have e4 : |t| ^ 4 = t ^ 4 := by
+    have : |t| ^ 4 = (|t| ^ 2) ^ 2 := by ring
+    rw [this, sq_abs]; ring
+  rw [e2] at h2; rw [e4] at h4
+  refine ⟨by linarith, by linarith, by linarith, by positivity, by positivity⟩
+
+/-! ### true node -/
+
+theorem tsum_truenode : tsum 1 60 truenode_corr ≤ 19682 / 10000 := by
+  norm_num [tsum, tbound, dabs, truenode_corr]
+
 end Pymeeus.GenR.MoonM
